@@ -228,10 +228,10 @@ class DynEngine(Engine):
       imps = []
       pool = IMPORTS if rng.random() < 0.7 else [i for i in IMPORTS if i[1].endswith('util') or i[3] in ('util2', 'util3')]
       for imp in rng.sample(pool, min(len(pool), rng.randint(1, 4))):
-        # _IMPORTS is a set: two recorded statements with equal (module, is_from) but different aliases have no defined order
-        if all(not (u[1] == imp[1] and u[2] == imp[2] and u[3] != imp[3]) for u in used):
-          imps.append(imp)
-          used.append(imp)
+        # (one module may be recorded several times in one form under different aliases: the header keeps the
+        # statement with the smallest alias, whatever order the set _IMPORTS yields them in)
+        imps.append(imp)
+        used.append(imp)
       stmts += imps
       if rng.random() < 0.05:
         stmts.append(DYN)       # late enabling
@@ -501,6 +501,8 @@ class DynEngine(Engine):
             for n in ([st[4][1]] if st[0] == 'bind' and not isinstance(st[4], int) else []) + [st[2]]:
               r = findings._resolve(table, n)
               if not r:
+                if sks[ci] is True or (isinstance(sks[ci], list) and n in sks[ci][1]):
+                  continue           # covered by skip_unknown: the statement is dropped / the reference becomes a placeholder
                 valid, first_bad = False, ('NameError' if not sks[ci] or sks[ci] == ['list', []] else None)
                 break
               if r[0] not in w.objs:
